@@ -258,3 +258,20 @@ def beam_simu(dim, elemType, p1, p2, ne=2, timoshenko=False, E=210.0, v=0.3, yAx
     structure = Models.Beam.BeamStructure([beam])
     simu = Simulations.Beam(mesh, structure, verbosity=False, useTimoshenko=timoshenko)
     return simu, beam, L
+
+
+def frame_simu(E1=210.0, E2=150.0, timoshenko=False):
+    """A real Beam simulation on a two-member 2-D L-frame (members meet at the corner with their own nodes: a connection welds or hinges them)."""
+    from EasyFEA import Mesher, Models, Simulations, ElemType
+    from EasyFEA.Geoms import Point, Line
+
+    section = beam_section()
+    line1 = Line(Point(0, 0), Point(2.0, 0), 1.0)
+    line2 = Line(Point(2.0, 0), Point(2.0, 1.5), 0.75)
+    beam1 = Models.Beam.Isotropic(2, line1, section, E1, 0.3)
+    beam2 = Models.Beam.Isotropic(2, line2, section, E2, 0.3, yAxis=(-1.0, 0.0, 0.0))
+    mesh = Mesher().Mesh_Beams([beam1, beam2], elemType=ElemType.SEG2)
+    structure = Models.Beam.BeamStructure([beam1, beam2])
+    simu = Simulations.Beam(mesh, structure, verbosity=False, useTimoshenko=timoshenko)
+    nodes = {"clamp": mesh.Nodes_Point(Point(0, 0)), "corner": mesh.Nodes_Point(Point(2.0, 0)), "tip": mesh.Nodes_Point(Point(2.0, 1.5))}
+    return simu, (beam1, beam2), nodes
